@@ -394,7 +394,24 @@ func runC31(uc *UnitCase, tape *Tape) *RunOutcome {
 				if overlap {
 					conc = "concurrent"
 				}
-				o.Violations = append(o.Violations, viol("C31", "not-linearizable", "no serial order of the calls explains the results: "+strings.Join(hs, " | "), -1, "calls", conc, "kinds", opKinds(recs)))
+				// Narrow the cause: are the mutations alone linearizable, and does every scan at least keep the
+				// weak iteration guarantee (it returns everything present throughout the call and nothing absent
+				// throughout it)? Then the only defect is that a scan is not an atomic snapshot.
+				var muts []porcupine.Operation
+				for _, po := range pops {
+					if k := po.Input.(UOp).Op; k != "subscribers" && k != "messages" {
+						muts = append(muts, po)
+					}
+				}
+				if overlap && porcupine.CheckOperationsTimeout(idxModel(false), muts, 30*time.Second) == porcupine.Ok {
+					if bad := weakScanViolations(recs); len(bad) == 0 {
+						o.Violations = append(o.Violations, viol("C31", "scan-not-atomic", "a scan concurrent with updates observed a state that never existed (each entry taken alone is explained): "+strings.Join(hs, " | "), -1, "scan", scanKinds(recs)))
+					} else {
+						o.Violations = append(o.Violations, viol("C31", "scan-wrong-entry", strings.Join(bad, "; ")+" in: "+strings.Join(hs, " | "), -1, "calls", conc))
+					}
+				} else {
+					o.Violations = append(o.Violations, viol("C31", "not-linearizable", "no serial order of the calls explains the results: "+strings.Join(hs, " | "), -1, "calls", conc, "kinds", opKinds(recs)))
+				}
 			} else {
 				o.Probes = append(o.Probes, "porcupine-inconclusive")
 			}
@@ -404,6 +421,184 @@ func runC31(uc *UnitCase, tape *Tape) *RunOutcome {
 	}
 	o.Sample = map[string]any{"case": uc, "digest": o.Digest}
 	return o
+}
+
+// presence classifies one key over the window [qc,qr] of a scan, from the calls that set it and the calls
+// that clear it: mustBe — set by a call that returned before the scan began and not cleared by any call that
+// could take effect before the scan ended; mustNot — every set that could take effect before the scan ended
+// was followed by a clear that returned before the scan began.
+func presence(sets, clears []*uRec, qc, qr int64) (mustBe, mustNot bool) {
+	for _, s := range sets {
+		if !s.done || s.ret > qc {
+			continue
+		}
+		cleared := false
+		for _, u := range clears {
+			if (!u.done || u.ret > s.call) && u.call < qr {
+				cleared = true
+			}
+		}
+		if !cleared {
+			mustBe = true
+		}
+	}
+	mustNot = true
+	for _, s := range sets {
+		if s.call > qr {
+			continue
+		}
+		cancelled := false
+		for _, u := range clears {
+			if s.done && u.done && u.call > s.ret && u.ret < qc {
+				cancelled = true
+			}
+		}
+		if !cancelled {
+			mustNot = false
+		}
+	}
+	return
+}
+
+// weakScanViolations checks every Subscribers / Messages call against the weak iteration guarantee.
+func weakScanViolations(recs []*uRec) []string {
+	var bad []string
+	for _, q := range recs {
+		if !q.done || (q.op.Op != "subscribers" && q.op.Op != "messages") {
+			continue
+		}
+		got := map[string]bool{}
+		if q.out != "" {
+			for _, e := range strings.Split(q.out, ",") {
+				got[e] = true
+			}
+		}
+		if q.op.Op == "subscribers" {
+			type acc struct{ be, not, any bool }
+			entries := map[string]*acc{}
+			keys := map[string][2]string{}
+			for _, r := range recs {
+				if r.op.Op == "sub" || r.op.Op == "unsub" {
+					keys[r.op.Client+"|"+r.op.Filter] = [2]string{r.op.Client, r.op.Filter}
+				}
+			}
+			for k, cf := range keys {
+				entry := cf[0]
+				if _, inner, sh := refmatch.SplitShare(cf[1]); sh {
+					if !refmatch.Match(inner, q.op.Topic) {
+						continue
+					}
+					entry = cf[1] + "<" + cf[0]
+				} else if !refmatch.Match(cf[1], q.op.Topic) {
+					continue
+				}
+				var sets, clears []*uRec
+				for _, r := range recs {
+					if r.op.Client+"|"+r.op.Filter == k {
+						if r.op.Op == "sub" {
+							sets = append(sets, r)
+						} else if r.op.Op == "unsub" {
+							clears = append(clears, r)
+						}
+					}
+				}
+				be, not := presence(sets, clears, q.call, q.ret)
+				a := entries[entry]
+				if a == nil {
+					a = &acc{not: true}
+					entries[entry] = a
+				}
+				a.any = true
+				a.be = a.be || be
+				a.not = a.not && not
+			}
+			for e, a := range entries {
+				if a.be && !got[e] {
+					bad = append(bad, fmt.Sprintf("Subscribers(%s)[%d,%d] omitted %q, which was subscribed throughout the call", q.op.Topic, q.call, q.ret, e))
+				}
+				if a.not && got[e] {
+					bad = append(bad, fmt.Sprintf("Subscribers(%s)[%d,%d] returned %q, which was not subscribed at any time during the call", q.op.Topic, q.call, q.ret, e))
+				}
+			}
+			for e := range got {
+				if entries[e] == nil {
+					bad = append(bad, fmt.Sprintf("Subscribers(%s)[%d,%d] returned %q, which no call could have produced", q.op.Topic, q.call, q.ret, e))
+				}
+			}
+			continue
+		}
+		topics := map[string]bool{}
+		for _, r := range recs {
+			if r.op.Op == "retain" {
+				topics[r.op.Topic] = true
+			}
+		}
+		gotTopic := map[string]string{}
+		for e := range got {
+			if i := strings.IndexByte(e, '='); i >= 0 {
+				gotTopic[e[:i]] = e[i+1:]
+			}
+		}
+		for t := range topics {
+			var sets, clears []*uRec
+			for _, r := range recs {
+				if r.op.Op == "retain" && r.op.Topic == t {
+					if r.op.Payload != "" {
+						sets = append(sets, r)
+					} else {
+						clears = append(clears, r)
+					}
+				}
+			}
+			v, present := gotTopic[t]
+			if !refmatch.Match(q.op.Filter, t) {
+				if present {
+					bad = append(bad, fmt.Sprintf("Messages(%s)[%d,%d] returned topic %q, which the filter does not match", q.op.Filter, q.call, q.ret, t))
+				}
+				continue
+			}
+			be, not := presence(sets, clears, q.call, q.ret)
+			if be && !present {
+				bad = append(bad, fmt.Sprintf("Messages(%s)[%d,%d] omitted %q, which was retained throughout the call", q.op.Filter, q.call, q.ret, t))
+			}
+			if not && present {
+				bad = append(bad, fmt.Sprintf("Messages(%s)[%d,%d] returned %q, which was not retained at any time during the call", q.op.Filter, q.call, q.ret, t))
+			}
+			if present {
+				ok := false
+				for _, s := range sets {
+					if s.call < q.ret && s.op.Payload == v {
+						ok = true
+					}
+				}
+				if !ok {
+					bad = append(bad, fmt.Sprintf("Messages(%s)[%d,%d] returned %s=%s, a payload no call stored", q.op.Filter, q.call, q.ret, t, v))
+				}
+			}
+		}
+		for t := range gotTopic {
+			if !topics[t] {
+				bad = append(bad, fmt.Sprintf("Messages(%s)[%d,%d] returned unknown topic %q", q.op.Filter, q.call, q.ret, t))
+			}
+		}
+	}
+	sort.Strings(bad)
+	return bad
+}
+
+func scanKinds(recs []*uRec) string {
+	set := map[string]bool{}
+	for _, r := range recs {
+		if r.op.Op == "subscribers" || r.op.Op == "messages" {
+			set[r.op.Op] = true
+		}
+	}
+	var a []string
+	for k := range set {
+		a = append(a, k)
+	}
+	sort.Strings(a)
+	return strings.Join(a, "+")
 }
 
 func opKinds(recs []*uRec) string {
